@@ -22,7 +22,7 @@ WHAT = {
 BASES = "the _fix_violation of 14 fix bases against effect contracts — token_case (243 of the 1049 rule objects inherit it unchanged), whitespace_between_tokens (171), the do-nothing default of vsg/rule.py (134: unfixable, naming and deprecated rules), token_indent (102), align_tokens_in_region_between_tokens (45, and 7 for its skipping-lines variant), blank_line_below_line_ending_with_token (36), token_prefix (26), previous_line (25), insert_carriage_return_after_token_if_it_is_not_followed_by_a_comment (18), split_line_at_token (17), blank_line_above_line_starting_with_token (16), consistent_token_case (10), remove_excessive_blank_lines_above_line_starting_with_token (5): 855 rules in all — with the _analyze of token_indent and whitespace_between_tokens proved to establish their preconditions; the preconditions of the other bases are assumed and OBSERVED: the contract text is evaluated by CPython around every real _fix_violation call of the bounded universe (bounded/monitor.py)"
 DED = {
     "C01": "vhdlFile.update is the splice of the analysed regions (everything in front of the first region keeps identity and place; one region: exactly old[:start] + new + old[end:]); remove_beginning_of_file_tokens is a filter; " + BASES + ": every non-white-space token of the region is the same object in the same order, token_case changes the first token's value in letter case only and keeps its length; the phase-1 normalisers (fix_blank_lines, fix_trailing_whitespace) keep every non-blank token and every line break",
-    "C02": BASES + ": non-white-space tokens (so every comment, pragma and preprocessor token of the region) are the same objects in the same order with unchanged values; the phase-1 normalisers keep them too; the classifier of single-line comments (classify_single_line_comment) makes exactly the text from a '--' token outside a delimited comment up to the trailing white space into ONE comment token: no character of the line is lost or duplicated, tokens in front are untouched",
+    "C02": BASES + ": non-white-space tokens (so every comment, pragma and preprocessor token of the region) are the same objects in the same order with unchanged values; the phase-1 normalisers keep them too; the classifier of single-line comments (classify_single_line_comment) makes exactly the text from a '--' token outside a delimited comment up to the trailing white space into ONE comment token: no character of the line is lost or duplicated, tokens in front are untouched; remove_leading / remove_trailing_whitespace_and_comments (the cut of an if / elsif condition): what is cut off is white space and comments only -- ALL of them -- and the rest starts / ends with code, so that nothing a rule puts around the condition lands behind a comment",
     "C03": BASES + " (white-space rules write white-space tokens only; case rules change letter case only, same length); rule_list.fix calls Rule.fix only for error-type severities of enabled rules and Rule.fix does nothing at all when fixable is false (ghost operation log)",
     "C06": "rule_list.check_rules analyses exactly the enabled rules of the visited phases, each once, and modifies nothing but rule.violations and its own counters (frame proved against the assumed frame of Rule.analyze); add_violation / has_code_tag decide suppression from the stamped tags only",
     "C07": "the extraction helpers behind the three largest rule bases (get_tokens_matching, get_tokens_at_beginning_of_line_matching, get_sequence_of_tokens_matching: 516 rules) return regions whose recorded line is the line of their first token (1 + line breaks in front of the recorded start), given that the index agrees with the list; whitespace_before_token._get_tokens_of_interest (32 rules): get_token_and_n_tokens_before_it records the line of the matched (last) token, and the guard against line breaks among the first two tokens plus the re-count in extract_tokens make every region the rule hands on carry the line of its first token; extract_tokens: a sub-region's line is the region's line plus the line breaks skipped, its start index the region's start plus the tokens skipped; count_carriage_returns counts line breaks; " + BASES + ": the number of line breaks of the region is unchanged",
